@@ -245,6 +245,7 @@ func propC19(t *rapid.T) {
 }
 
 func TestC19(t *testing.T) {
+	runWitnesses(t, "C19")
 	colC19 = ev.New("C19", "rapid: sets of 1-8 opcode patterns of length 1-4 with bytes/masks from {00,0f,f0,ff,random}, "+
 		"don't-care bits set in Bytes, 1/24 malformed (empty, length mismatch, zero last mask byte), 1/3 derived from an "+
 		"earlier pattern by one bit of bytes/mask or by lengthening/shortening; NewMatcher must succeed iff all patterns "+
